@@ -832,3 +832,9 @@ benign('C08', 'adapter listener whose equality is that of the wrapped callable',
        [('pubsub', _EP, _ADAPTER % "self._fn == other._fn" + _EP)])
 seeded('C08', 'adapter listener compared by its label', 'R8.9',
        [('pubsub', _EP, _ADAPTER % "self._name == other._name" + _EP)], key='value-equality')
+
+# ===================================================================================================== round 13 additions
+seeded('C16', 'SI product derives its unit text with hat and dot swapped', 'R16.9',
+       [('units', "            ret._unit = ret.siunit(True, '', '.') \n", "            ret._unit = ret.siunit(True, '.', '') \n")], key='unit-text-format')
+benign('C16', 'unit text derived with keyword arguments',
+       [('units', "        self._unit = self.siunit(True, '', '.')", "        self._unit = self.siunit(div=True, dot='.', hat='')")])
